@@ -229,24 +229,6 @@ class GenTemporal:
         rng, em, up = self.rng, self.em, self.up
         a = DurativeAction(name, self.gen_params(), self.env)
         params = list(a.parameters)
-        ip = [pp for pp in params if pp.type.is_int_type()]
-        nf = self.num_fluents()
-        r = rng.random()
-        if ip and r < 0.4:
-            lo = em.ParameterExp(ip[0])
-        elif nf and r < 0.6:
-            lo = self.fexp(rng.choice(nf), params)
-        else:
-            lo = em.Real(rng.choice([F(1), F(3, 2), F(2), F(5, 2), F(3)]))
-        r = rng.random()
-        if r < 0.35:
-            a.set_fixed_duration(lo)
-        else:
-            hi = em.Plus(lo, em.Real(rng.choice([F(1, 2), F(1), F(2)])))
-            if lo.is_constant():
-                hi = hi.simplify()
-            [a.set_closed_duration_interval, a.set_open_duration_interval, a.set_left_open_duration_interval,
-             a.set_right_open_duration_interval][rng.randrange(4)](lo, hi)
         for _ in range(rng.randint(0, 3)):
             a.add_condition(self.gen_interval(), self.gen_cond(params))
         n = rng.randint(1, 3)
@@ -262,6 +244,34 @@ class GenTemporal:
             except (up.exceptions.UPConflictingEffectsException, up.exceptions.UPTypeError, up.exceptions.UPUsageError,
                     AssertionError):
                 pass
+        # the duration: most of the time long enough for every delayed timing to stay inside the action
+        need = F(0)
+        for iv in a.conditions:
+            need = max(need, abs(F(iv.lower.delay)) + abs(F(iv.upper.delay)))
+        for t in a.effects:
+            need = max(need, abs(F(t.delay)))
+        ip = [pp for pp in params if pp.type.is_int_type()]
+        nf = self.num_fluents()
+        r = rng.random()
+        if ip and r < 0.3:
+            lo = em.ParameterExp(ip[0])
+        elif nf and r < 0.45:
+            lo = self.fexp(rng.choice(nf), params)
+        elif r < 0.9:
+            lo = em.Real(need + rng.choice([F(0), F(1, 2), F(1), F(3, 2)]))
+        else:
+            lo = em.Real(rng.choice([F(1), F(3, 2), F(2), F(5, 2), F(3)]))
+        if lo.is_constant() and lo.constant_value() == 0:
+            lo = em.Real(F(1))
+        r = rng.random()
+        if r < 0.35:
+            a.set_fixed_duration(lo)
+        else:
+            hi = em.Plus(lo, em.Real(rng.choice([F(1, 2), F(1), F(2)])))
+            if lo.is_constant():
+                hi = hi.simplify()
+            [a.set_closed_duration_interval, a.set_open_duration_interval, a.set_left_open_duration_interval,
+             a.set_right_open_duration_interval][rng.randrange(4)](lo, hi)
         return a
 
     def gen_instantaneous(self, name, InstantaneousAction):
